@@ -264,7 +264,7 @@ func mkScratch() string {
 		base = "/var/tmp"
 	}
 	os.MkdirAll(base, 0755)
-	d, err := os.MkdirTemp(base, "verif.")
+	d, err := os.MkdirTemp(base, "verif-go-build.") // "go-build" in the path: snapd's osutil.IsTestBinary() must hold for the test-only mock seams
 	if err != nil {
 		die(2, "%v", err)
 	}
